@@ -3,5 +3,6 @@ package peer
 // Registry lists the harness entry points of this package for native replay.
 var Registry = map[string]func([]int64){
 	"HarnessCheckpointCursor": func(a []int64) { HarnessCheckpointCursor(int(a[0])) },
+	"HarnessExpInv":           func([]int64) { HarnessExpInv() },
 	"HarnessExpHeadersBatch":  func(a []int64) { HarnessExpHeadersBatch(int(a[0]), int(a[1])) },
 }
